@@ -9,7 +9,7 @@ import VhostModel.Lemmas.Locks
 (`Frontend`, `Backend` proxy, `GpuBackend`), with the per-call steps `acquire · send · recv|skip ·
 release` of the Rust methods and a peer that answers in arrival order.  All theorems are for every
 configuration `c` (any number of callers, any mix of reply-bearing / acknowledged / fire-and-forget /
-locally-rejected calls, REPLY_ACK on or off) and every schedule, i.e. every label sequence `ls`
+locally-rejected calls, REPLY_ACK on or off, any assignment of reply faults `bad` / `close` to callers) and every schedule, i.e. every label sequence `ls`
 accepted by `step` from `init`.
 
 * `pending_implies_holder` — state invariant: a request whose reply has not been consumed is on the
@@ -21,6 +21,17 @@ accepted by `step` from `init`.
 * `all_complete` — no deadlock (some label enabled while a caller is unfinished), the measure
   "remaining steps" strictly decreases with every step, hence every maximal run finishes all callers and
   no run is longer than `8·n` steps;
+* `faulty_reply_releases_lock`, `faulty_call_returns_error` — a caller whose reply is faulty (refused by the reader,
+  or end-of-file because the peer closed the socket) consumes it, returns an error and never a value, and its
+  release frees the lock with nothing outstanding;
+* `others_unaffected_by_faulty_reply` — atomicity and own-reply hold for everybody under any assignment of faults; a
+  caller without a fault of its own gets its own reply and no error, unless it wrote nothing (local rejection, or a
+  socket the peer had closed before);
+* `model_fault_clauses` — Model ⊨ `Spec.Locks.FaultClauses` (a mistreated request ⇒ its caller gets an error; an
+  answered one ⇒ its own reply; one the peer never saw ⇒ an error); `faultClausesB_sound` for the executable form;
+* `relock_on_error_deadlocks` (+ `relock_reached_by_every_faulty_reply`) — the *mutated* rule `Cfg.relock` (the error
+  path of the reply reader takes the endpoint lock again): every schedule that reaches it is stuck for good with the
+  lock held; `no_deadlock` / `all_complete` are for the code's rule `relock = false`, the safety theorems for both;
 * `scan_sound`, `ownReplyB_iff` — the executable judges used by the spec driver on the implementation's
   observed histories imply the declarative Spec clauses;
 * `trace_is_projection` — the ghost history is exactly the projection of the schedule to its send/recv
@@ -34,7 +45,8 @@ with the outstanding caller as its state) and its preservation by each label, an
 are in `Lemmas/Locks.lean`.
 
 Assumed (DESIGN §6): `std::sync::Mutex` gives mutual exclusion; the socket is a FIFO per direction;
-the peer produces a reply exactly for the requests whose caller reads one; fairness of the OS
+the peer produces a reply exactly for the requests whose caller reads one (a faulty reply has the size of the correct
+one, so the reader consumes exactly it; a closing peer closes instead of that reply); fairness of the OS
 scheduler for liveness ("every maximal run").
 -/
 
@@ -140,8 +152,11 @@ theorem trace_is_projection_from (c : Cfg) (s s' : St) (ls : List Lbl) (hr : run
       rw [ih s1 hr]
       cases l with
       | acquire i =>
-        simp only [step] at hs1; split at hs1 <;> simp at hs1
-        subst hs1; simp [List.filter, isWire]
+        simp only [step] at hs1
+        split at hs1
+        · simp at hs1; subst hs1; simp [List.filter, isWire]
+        · split at hs1 <;> simp at hs1
+          subst hs1; simp [List.filter, isWire]
       | send i =>
         simp only [step] at hs1; split at hs1 <;> simp at hs1
         subst hs1; simp [List.filter, isWire, wireLbl]
@@ -164,12 +179,14 @@ theorem trace_is_projection (c : Cfg) (ls : List Lbl) (s : St) (hr : run c init 
 
 /-! ## C10, clause 2: every caller receives the reply to its own request -/
 
+/-- Every reply consumed is the consumer's own; a finished reply-reading call that did not end in an error
+(faulty reply, dead socket — see `err_only_by_fault`) consumed its own reply; no caller ever holds a foreign value. -/
 theorem own_reply (c : Cfg) (ls : List Lbl) (s : St) (hr : run c init ls = some s) :
     OwnReply s.trace ∧
-    (∀ i, s.pc i = .done → c.reads i = true → s.got i = some i) ∧
+    (∀ i, s.pc i = .done → c.reads i = true → s.err i = false → s.got i = some i) ∧
     (∀ i t, s.got i = some t → t = i) := by
   have h := inv_reachable c ls s hr
-  refine ⟨h.trOwn, fun i hd hrd => h.gotOwn i (Or.inr ⟨hd, hrd⟩), ?_⟩
+  refine ⟨h.trOwn, fun i hd hrd he => h.gotOwn i (Or.inr ⟨hd, hrd⟩) he, ?_⟩
   -- `got` is only ever written by `recv`, which stores the caller's own tag
   suffices H : ∀ (s0 : St), Inv c s0 → (∀ i t, s0.got i = some t → t = i) →
       ∀ s1, run c s0 ls = some s1 → ∀ i t, s1.got i = some t → t = i from
@@ -190,15 +207,20 @@ theorem own_reply (c : Cfg) (ls : List Lbl) (s : St) (hr : run c init ls = some 
         intro i t hit
         simp only [step] at hs2
         split at hs2
-        · split at hs2 <;> simp at hs2
+        · split at hs2 <;> simp only [Option.some.injEq, reduceCtorEq] at hs2
           subst hs2
-          by_cases e : i = k
-          · subst e; rw [hk] at hit; cases hit; rfl
-          · simp only [upd_other _ _ e] at hit; exact hg i t hit
+          cases hf : c.faulty k
+          · by_cases e : i = k
+            · subst e; rw [hk hf] at hit; cases hit; rfl
+            · simp only [hf, Bool.false_eq_true, if_false, upd_other _ _ e] at hit; exact hg i t hit
+          · simp only [hf, if_true] at hit; exact hg i t hit
         · simp at hs2
       | acquire k =>
-        simp only [step] at hs2; split at hs2 <;> simp at hs2
-        subst hs2; exact hg
+        simp only [step] at hs2
+        split at hs2
+        · simp at hs2; subst hs2; exact hg
+        · split at hs2 <;> simp at hs2
+          subst hs2; exact hg
       | send k =>
         simp only [step] at hs2; split at hs2 <;> simp at hs2
         subst hs2; exact hg
@@ -211,11 +233,14 @@ theorem own_reply (c : Cfg) (ls : List Lbl) (s : St) (hr : run c init ls = some 
 
 /-! ## C10, clause 3: all calls complete -/
 
-/-- No deadlock (in particular no self-deadlock): in every reachable state in which some caller has
-not finished, some label is enabled. -/
-theorem no_deadlock (c : Cfg) (ls : List Lbl) (s : St) (hr : run c init ls = some s)
+/-- No deadlock (in particular no self-deadlock), faulty replies and a closed socket included: in every reachable
+state of the code's rule (`relock = false`) in which some caller has not finished, some label is enabled. -/
+theorem no_deadlock (c : Cfg) (hrl : c.relock = false) (ls : List Lbl) (s : St) (hr : run c init ls = some s)
     (i : Nat) (hi : i < c.n) (hnd : s.pc i ≠ .done) : enabled c s ≠ [] := by
   have h := inv_reachable c ls s hr
+  have f := finv_reachable c ls s hr
+  have norl : ∀ j, s.pc j ≠ .relock := by
+    intro j hj; have := (f.relockPc j hj).1; rw [hrl] at this; cases this
   suffices H : ∃ l, l ∈ allLabels c.n ∧ (step c s l).isSome = true by
     obtain ⟨l, hl, hsome⟩ := H
     intro hnil
@@ -229,16 +254,20 @@ theorem no_deadlock (c : Cfg) (ls : List Lbl) (s : St) (hr : run c init ls = som
       | done => exact absurd hp hnd
       | locked => have := h.lock i (Or.inl hp); rw [hh] at this; cases this
       | sent => have := h.lock i (Or.inr (Or.inl hp)); rw [hh] at this; cases this
-      | got => have := h.lock i (Or.inr (Or.inr hp)); rw [hh] at this; cases this
+      | got => have := h.lock i (Or.inr (Or.inr (Or.inl hp))); rw [hh] at this; cases this
+      | relock => exact absurd hp (norl i)
     exact ⟨.acquire i, (mem_allLabels c.n i hi).1, by simp [step, hi, hidle, hh]⟩
   | some k =>
     have hk := h.held k hh
-    have hkn : k < c.n := h.range k (by rcases hk with hp | hp | hp <;> rw [hp] <;> simp)
+    have hkn : k < c.n := h.range k (by rcases hk with hp | hp | hp | hp <;> rw [hp] <;> simp)
     have hm := mem_allLabels c.n k hkn
-    rcases hk with hp | hp | hp
+    rcases hk with hp | hp | hp | hp
     · cases hsn : c.sends k
       · exact ⟨.release k, hm.2.2.2, by simp [step, hh, hp, hsn]⟩
-      · exact ⟨.send k, hm.2.1, by simp [step, hp, hsn]⟩
+      · cases hcl : s.closed
+        · exact ⟨.send k, hm.2.1, by simp [step, hp, hsn, hcl]⟩
+        · -- the socket is dead: the send fails, the method returns and drops its guard
+          exact ⟨.release k, hm.2.2.2, by simp [step, hh, hp, hcl]⟩
     · cases hrd : c.reads k
       · exact ⟨.release k, hm.2.2.2, by simp [step, hh, hp, hrd]⟩
       · have hopn := h.opn k hp hrd
@@ -249,31 +278,324 @@ theorem no_deadlock (c : Cfg) (ls : List Lbl) (s : St) (hr : run c init ls = som
           | nil => simp [outstanding, hq, hrq] at hopn
           | cons r q => exact ⟨.peer, mem_allLabels_peer c.n, by simp [step, hrq]⟩
     · exact ⟨.release k, hm.2.2.2, by simp [step, hh, hp]⟩
+    · exact absurd hp (norl k)
 
-/-- Progress.  For every schedule `ls` reaching `s`:
-(1) if some caller is unfinished, some label is enabled (no deadlock, no self-deadlock);
-(2) every further step strictly decreases the measure, and `|ls| + measure s ≤ 8·n`, so no run is
-    longer than `8·n` steps;
-(3) hence a maximal run (no label enabled at its end) has finished all callers. -/
+/-- Progress, faulty replies included.  For every schedule `ls` reaching `s`:
+(1) if some caller is unfinished, some label is enabled (no deadlock, no self-deadlock) — for the code's rule;
+(2) every further step strictly decreases the measure "remaining steps" (a faulty reply costs the same steps as a
+    good one), and `|ls| + measure s ≤ 8·n`, so no run is longer than `8·n` steps — for both rules;
+(3) hence a maximal run (no label enabled at its end) has finished all callers — for the code's rule. -/
 theorem all_complete (c : Cfg) (ls : List Lbl) (s : St) (hr : run c init ls = some s) :
-    (∀ i, i < c.n → s.pc i ≠ .done → enabled c s ≠ []) ∧
+    (c.relock = false → ∀ i, i < c.n → s.pc i ≠ .done → enabled c s ≠ []) ∧
     (∀ l s', step c s l = some s' → Model.Locks.measure c s' < Model.Locks.measure c s) ∧
     ls.length + Model.Locks.measure c s ≤ 8 * c.n ∧
-    (enabled c s = [] → ∀ i, i < c.n → s.pc i = .done) := by
+    (c.relock = false → enabled c s = [] → ∀ i, i < c.n → s.pc i = .done) := by
   have h := inv_reachable c ls s hr
-  refine ⟨fun i hi hnd => no_deadlock c ls s hr i hi hnd,
+  refine ⟨fun hrl i hi hnd => no_deadlock c hrl ls s hr i hi hnd,
           fun l s' hs => measure_step c s s' l h hs, ?_, ?_⟩
   · have := run_measure c init s ls (inv_init c) hr
     rw [measure_init] at this; exact this
-  · intro hnil i hi
+  · intro hrl hnil i hi
     cases hp : s.pc i with
     | done => rfl
-    | _ => exact absurd hnil (no_deadlock c ls s hr i hi (by rw [hp]; simp))
+    | _ => exact absurd hnil (no_deadlock c hrl ls s hr i hi (by rw [hp]; simp))
+
+/-! ## faulty replies: the error paths of the reply readers
+
+`Cfg.fault` lets the peer answer chosen requests with a reply the reader refuses (`bad`) or close the socket instead
+of answering (`close`); see the header of `Model/Locks.lean`.  All theorems above are for every `fault` assignment.
+The ones below say what a faulty reply does to its own caller, that it does nothing to the others, and that the
+mutated rule `Cfg.relock` (error path takes the lock again) is a deadlock. -/
+
+/-- in a state where caller `i` holds the lock at program counter `p`, a label other than `peer` that is enabled
+is a label of caller `i` -/
+theorem only_holder_moves (c : Cfg) (s : St) (h : Inv c s) (i : Nat) (hh : s.holder = some i) (l : Lbl) (s1 : St)
+    (hs : step c s l = some s1) : l = .peer ∨ l = .send i ∨ l = .recv i ∨ l = .release i := by
+  cases l with
+  | peer => exact Or.inl rfl
+  | acquire j =>
+    simp only [step] at hs
+    split at hs
+    · rename_i hc; rw [hh] at hc; cases hc.2.2
+    · split at hs
+      · rename_i _ hc; rw [hh] at hc; cases hc.2
+      · cases hs
+  | send j =>
+    simp only [step] at hs
+    split at hs
+    · rename_i hc
+      have := h.lock j (Or.inl hc.1); rw [hh] at this; cases this
+      exact Or.inr (Or.inl rfl)
+    · cases hs
+  | recv j =>
+    simp only [step] at hs
+    split at hs
+    · rename_i hc
+      have := h.lock j (Or.inr (Or.inl hc.1)); rw [hh] at this; cases this
+      exact Or.inr (Or.inr (Or.inl rfl))
+    · cases hs
+  | release j =>
+    simp only [step] at hs
+    split at hs
+    · rename_i hc
+      have := hc.1; rw [hh] at this; cases this
+      exact Or.inr (Or.inr (Or.inr rfl))
+    · cases hs
+
+/-- **A faulty reply releases the lock.**  For every configuration of the code's rule and every schedule: the
+`recv` step of a caller whose reply is faulty (refused by the reader, or end-of-file) leaves that caller with an
+error and without a value, still holding the lock; the only labels enabled then are the peer and `release i`; and
+that release frees the lock with the caller done — with the error, without a value — and nothing outstanding on
+the wire (the faulty reply was consumed whole: the next caller starts on an aligned stream). -/
+theorem faulty_reply_releases_lock (c : Cfg) (hrl : c.relock = false) (ls : List Lbl) (s s1 : St) (i : Nat)
+    (hr : run c init ls = some s) (hf : c.faulty i = true) (hs : step c s (.recv i) = some s1) :
+    s1.err i = true ∧ s1.got i = none ∧ s1.holder = some i ∧
+    (∀ l s', step c s1 l = some s' → l = .peer ∨ l = .release i) ∧
+    ∃ s2, step c s1 (.release i) = some s2 ∧ s2.holder = none ∧ s2.pc i = .done ∧
+          s2.err i = true ∧ s2.got i = none ∧ outstanding c s2 = [] := by
+  have hr1 : run c init (ls ++ [.recv i]) = some s1 := by
+    rw [run_append, hr]; simp [run, hs]
+  have h1 := inv_reachable c _ s1 hr1
+  have f1 := finv_reachable c _ s1 hr1
+  have h0 := inv_reachable c ls s hr
+  have hpc : s1.pc i = .got ∧ s1.holder = some i := by
+    simp only [step] at hs
+    split at hs
+    · rename_i hc
+      split at hs
+      · cases hs
+      · simp only [Option.some.injEq] at hs; subst hs
+        exact ⟨by simp [hrl, upd_same], h0.lock i (Or.inr (Or.inl hc.1))⟩
+    · cases hs
+  have herr := f1.faultyErr i hf (Or.inl hpc.1)
+  have hgot := f1.faultyNoVal i hf
+  have hne : ¬ (s1.pc i = .locked) := by rw [hpc.1]; simp
+  refine ⟨herr, hgot, hpc.2, ?_, ?_⟩
+  · intro l s' hl
+    rcases only_holder_moves c s1 h1 i hpc.2 l s' hl with e | e | e | e
+    · exact Or.inl e
+    · subst e; simp [step, hpc.1] at hl
+    · subst e; simp [step, hpc.1] at hl
+    · exact Or.inr e
+  · have hstep : step c s1 (.release i) =
+        some { s1 with pc := upd s1.pc i .done, holder := none,
+                       err := if s1.pc i = .locked then upd s1.err i true else s1.err } := by
+      simp [step, hpc.1, hpc.2]
+    refine ⟨_, hstep, rfl, by simp [upd_same], ?_, hgot, ?_⟩
+    · simp [hne, herr]
+    · have hr2 : run c init (ls ++ [.recv i] ++ [.release i]) =
+          some { s1 with pc := upd s1.pc i .done, holder := none,
+                         err := if s1.pc i = .locked then upd s1.err i true else s1.err } := by
+        rw [run_append, hr1]; simp [run, hstep]
+      have h2 := inv_reachable c _ _ hr2
+      rcases h2.out with h | ⟨j, _, hj, _⟩
+      · exact h
+      · have := h2.lock j (Or.inr (Or.inl hj)); cases this
+
+/-- The faulted call returns an error, never a value — in every state of every schedule, under both rules. -/
+theorem faulty_call_returns_error (c : Cfg) (ls : List Lbl) (s : St) (hr : run c init ls = some s)
+    (i : Nat) (hf : c.faulty i = true) :
+    s.got i = none ∧ (s.pc i = .done → s.err i = true) := by
+  have f := finv_reachable c ls s hr
+  exact ⟨f.faultyNoVal i hf, fun hd => f.faultyErr i hf (Or.inr (Or.inr hd))⟩
+
+/-- **The other callers are unaffected.**  With any assignment of faults, in every schedule: the history is atomic
+and every consumed reply is the consumer's own (clauses 1 and 2 for everybody); a caller whose own reply is not
+faulty and whose request was written gets the reply to its own request and no error; such a caller ends in an error
+only if it wrote nothing — refused locally, or the peer had closed the socket before its send; and the socket is
+never closed unless some configured fault is a `close`. -/
+theorem others_unaffected_by_faulty_reply (c : Cfg) (ls : List Lbl) (s : St) (hr : run c init ls = some s) :
+    Atomic c.reads s.trace ∧ OwnReply s.trace ∧
+    (∀ j, c.faulty j = false → s.pc j = .done → c.reads j = true → Ev.req j ∈ s.trace →
+        s.got j = some j ∧ s.err j = false) ∧
+    (∀ j, c.faulty j = false → s.err j = true →
+        Ev.req j ∉ s.trace ∧ (c.sends j = false ∨ s.closed = true)) ∧
+    ((∀ k, c.closes k = false) → s.closed = false) := by
+  have h := inv_reachable c ls s hr
+  have f := finv_reachable c ls s hr
+  refine ⟨scan_sound c.reads none _ s.trace h.tr, h.trOwn, ?_, ?_, ?_⟩
+  · intro j hnf hd hrd hreq
+    have he : s.err j = false := by
+      cases he : s.err j with
+      | false => rfl
+      | true =>
+        rcases f.errWhy j he with h1 | h1
+        · rw [hnf] at h1; cases h1
+        · exact absurd hreq h1
+    exact ⟨h.gotOwn j (Or.inr ⟨hd, hrd⟩) he, he⟩
+  · intro j hnf he
+    refine ⟨?_, ?_⟩
+    · rcases f.errWhy j he with h1 | h1
+      · rw [hnf] at h1; cases h1
+      · exact h1
+    · rcases f.errClosed j he with h1 | h1
+      · rw [hnf] at h1; cases h1
+      · exact h1
+  · intro hno
+    cases hcl : s.closed with
+    | false => rfl
+    | true =>
+      obtain ⟨k, hk⟩ := f.closedWhy hcl
+      rw [hno k] at hk; cases hk
+
+/-- a caller at `relock` holds the lock it is waiting for: nothing but the peer can ever move again -/
+theorem relock_stuck (c : Cfg) (i : Nat) (s : St) (h : Inv c s) (hp : s.pc i = .relock) :
+    s.holder = some i ∧ (∀ l, l ≠ .peer → step c s l = none) ∧
+    (∀ ls' s', run c s ls' = some s' → (∀ l ∈ ls', l = .peer) ∧ s'.pc = s.pc ∧ s'.holder = some i) := by
+  have stuck : ∀ (s : St), Inv c s → s.pc i = .relock → ∀ l, l ≠ .peer → step c s l = none := by
+    intro s h hp l hl
+    have hh : s.holder = some i := h.lock i (Or.inr (Or.inr (Or.inr hp)))
+    cases hs : step c s l with
+    | none => rfl
+    | some s1 =>
+      exfalso
+      rcases only_holder_moves c s h i hh l s1 hs with e | e | e | e
+      · exact hl e
+      · subst e; simp [step, hp] at hs
+      · subst e; simp [step, hp] at hs
+      · subst e; simp [step, hp] at hs
+  refine ⟨h.lock i (Or.inr (Or.inr (Or.inr hp))), stuck s h hp, ?_⟩
+  intro ls'
+  induction ls' generalizing s with
+  | nil =>
+    intro s' hr'; simp [run] at hr'; subst hr'
+    exact ⟨by simp, rfl, h.lock i (Or.inr (Or.inr (Or.inr hp)))⟩
+  | cons l ls' ih =>
+    intro s' hr'
+    simp only [run] at hr'
+    split at hr'
+    · cases hr'
+    · rename_i s1 hs1
+      have hl : l = .peer := by
+        cases hlp : decide (l = .peer) with
+        | true => exact of_decide_eq_true hlp
+        | false =>
+          have := stuck s h hp l (of_decide_eq_false hlp)
+          rw [this] at hs1; cases hs1
+      subst hl
+      have hsame : s1.pc = s.pc := by
+        simp only [step] at hs1
+        split at hs1
+        · cases hs1
+        · simp only [Option.some.injEq] at hs1; subst hs1; rfl
+      have := ih s1 (inv_step c s s1 .peer h hs1) (by rw [hsame]; exact hp) s' hr'
+      refine ⟨?_, ?_, this.2.2⟩
+      · intro l hl
+        simp only [List.mem_cons] at hl
+        rcases hl with e | e
+        · exact e
+        · exact this.1 l e
+      · rw [this.2.1, hsame]
+
+/-- **The mutated rule deadlocks.**  In the variant in which the error path of the reply reader takes the endpoint
+lock again (`Cfg.relock`), every schedule that reaches that point — caller `i` has read a faulty reply — is stuck for
+good with the lock held: no label of any caller is enabled (`i` waits for the lock it holds itself, everybody else
+waits for `i`), in every continuation only the peer moves, no program counter ever changes again — `i` never returns
+and neither does any caller that had not finished. -/
+theorem relock_on_error_deadlocks (c : Cfg) (ls : List Lbl) (s : St) (hr : run c init ls = some s)
+    (i : Nat) (hp : s.pc i = .relock) :
+    c.relock = true ∧ c.faulty i = true ∧ s.holder = some i ∧
+    (∀ l, l ≠ .peer → step c s l = none) ∧
+    (∀ ls' s', run c s ls' = some s' → (∀ l ∈ ls', l = .peer) ∧ s'.pc = s.pc ∧ s'.holder = some i) := by
+  have f := finv_reachable c ls s hr
+  have := relock_stuck c i s (inv_reachable c ls s hr) hp
+  exact ⟨(f.relockPc i hp).1, (f.relockPc i hp).2, this.1, this.2.1, this.2.2⟩
+
+/-- … and every faulty reply leads there: under the mutated rule the receipt of a faulty reply *is* that point. -/
+theorem relock_reached_by_every_faulty_reply (c : Cfg) (hrl : c.relock = true) (s s1 : St) (i : Nat)
+    (hf : c.faulty i = true) (hs : step c s (.recv i) = some s1) : s1.pc i = .relock := by
+  simp only [step] at hs
+  split at hs
+  · split at hs
+    · cases hs
+    · simp only [Option.some.injEq] at hs; subst hs; simp [hf, hrl, upd]
+  · cases hs
+
+/-- the mutated configuration of the examples: caller 0's reply is faulty, caller 1 is an ordinary call -/
+def rlCfg : Cfg := { n := 2, kind := fun _ => .reply, ackMode := false,
+                     fault := fun i => if i = 0 then .bad else .none, relock := true }
+
+/-- the same configuration under the code's rule -/
+def okCfg : Cfg := { n := 2, kind := fun _ => .reply, ackMode := false,
+                     fault := fun i => if i = 0 then .bad else .none }
+
+/-- the hypothesis of `relock_on_error_deadlocks` is reachable, nothing is enabled there, and caller 1 (which has
+not even started) can never run: the whole endpoint is dead -/
+example : (run rlCfg init [.acquire 0, .send 0, .peer, .recv 0]).map
+    (fun s => (s.pc 0, s.pc 1, s.holder, enabled rlCfg s)) = some (.relock, .idle, some 0, []) := by decide
+/-- the code's rule on the same configuration and schedule: the faulty reply is an error for caller 0 only,
+caller 1 gets its own reply, everything completes -/
+example : (run okCfg init
+      [.acquire 0, .send 0, .peer, .recv 0, .release 0, .acquire 1, .send 1, .peer, .recv 1, .release 1]).map
+    (fun s => ([s.err 0, s.err 1], [s.got 0, s.got 1, s.holder], enabled okCfg s)) =
+    some ([true, false], [none, some 1, none], []) := by decide
+
+/-- the executable form of the fault clauses implies the declarative one for the callers it looks at -/
+theorem faultClausesB_sound (n : Nat) (ex fl an : Nat → Bool) (out : Nat → Outcome)
+    (hpend : ∀ i, n ≤ i → out i = .pending) (h : faultClausesB n ex fl an out = true) :
+    FaultClauses ex fl an out := by
+  intro i hne hex
+  have hi : i < n := by
+    cases Nat.lt_or_ge i n with
+    | inl h => exact h
+    | inr h => exact absurd (hpend i h) hne
+  unfold faultClausesB at h
+  rw [List.all_eq_true] at h
+  have := h i (List.mem_range.mpr hi)
+  cases hf : fl i <;> cases ha : an i <;> simp [hf, ha, hex, hne] at this ⊢ <;> exact this
+
+/-- **Model ⊨ fault clauses.**  In every state of every schedule, with any assignment of faults: the callers'
+outcomes satisfy `Spec.Locks.FaultClauses`, where a request counts as answered correctly when it was written and
+is not one the peer mistreats. -/
+theorem model_fault_clauses (c : Cfg) (ls : List Lbl) (s : St) (hr : run c init ls = some s) :
+    FaultClauses c.reads c.faulty (fun i => !c.faulty i && decide (Ev.req i ∈ s.trace)) (outcome s) := by
+  have h := inv_reachable c ls s hr
+  have f := finv_reachable c ls s hr
+  intro i hne hex
+  have hd : s.pc i = .done := by
+    unfold outcome at hne
+    by_cases hd : s.pc i = .done
+    · exact hd
+    · simp [hd] at hne
+  refine ⟨?_, ?_, ?_⟩
+  · intro hf
+    have := f.faultyErr i hf (Or.inr (Or.inr hd))
+    simp [outcome, hd, this]
+  · intro hf ha
+    simp only [hf, Bool.not_false, Bool.true_and, decide_eq_true_eq] at ha
+    have := (others_unaffected_by_faulty_reply c ls s hr).2.2.1 i hf hd hex ha
+    simp [outcome, hd, this.1, this.2]
+  · intro hf ha
+    simp only [hf, Bool.not_false, Bool.true_and, decide_eq_false_iff_not] at ha
+    have := f.doneNoReq i hd ha
+    simp [outcome, hd, this]
+
+example : faultClausesB 2 (fun _ => true) (fun i => i == 0) (fun i => i == 1)
+    (fun i => if i = 0 then .error else .value 1) = true := by decide
+example : faultClausesB 2 (fun _ => true) (fun i => i == 0) (fun i => i == 1)
+    (fun i => if i = 0 then .value 0 else .value 1) = false := by decide
+
+/-- a closing peer: caller 0's request is answered by closing the socket; caller 1 comes later, finds the socket
+dead and returns an error without having written anything; caller 2 (a locally rejected call) is as always -/
+def clCfg : Cfg := { n := 3, kind := fun i => if i = 2 then .rejected else .reply, ackMode := false,
+                     fault := fun i => if i = 0 then .close else .none }
+
+example : (run clCfg init [.acquire 0, .send 0, .peer, .recv 0, .release 0, .acquire 1, .release 1,
+                            .acquire 2, .release 2]).map
+    (fun s => ([s.err 0, s.err 1, s.err 2, s.closed], [s.got 0, s.got 1], s.trace, enabled clCfg s)) =
+    some ([true, true, true, true], [none, none], [.req 0, .rep 0 0], []) := by decide
+/-- on the dead socket the send is not enabled -/
+example : (run clCfg init [.acquire 0, .send 0, .peer, .recv 0, .release 0, .acquire 1, .send 1]).isSome = false := by
+  decide
+/-- before the close everybody is served as usual -/
+example : (run clCfg init [.acquire 1, .send 1, .peer, .recv 1, .release 1, .acquire 0, .send 0, .peer, .recv 0,
+                            .release 0]).map (fun s => ([s.err 0, s.err 1], [s.got 0, s.got 1])) =
+    some ([true, false], [none, some 1]) := by decide
 
 /-! ## the hypotheses are satisfiable: a concrete mixed configuration and schedule -/
 
 /-- three callers: reply-bearing, acknowledged (REPLY_ACK on), fire-and-forget -/
-def exCfg : Cfg := ⟨3, fun i => match i with | 0 => .reply | 1 => .ack | _ => .fire, true⟩
+def exCfg : Cfg := { n := 3, kind := fun i => match i with | 0 => .reply | 1 => .ack | _ => .fire, ackMode := true }
 
 def exSched : List Lbl :=
   [.acquire 1, .send 1, .peer, .recv 1, .release 1,
@@ -294,7 +616,7 @@ example : (run exCfg init [.acquire 1, .send 1]).map (fun s => outstanding exCfg
 
 /-! ## the invariant is not vacuous: the variant that drops the guard between send and receive -/
 
-def brCfg : Cfg := ⟨2, fun _ => .reply, false⟩
+def brCfg : Cfg := { n := 2, kind := fun _ => .reply, ackMode := false }
 
 /-- In the broken variant a second request is written between a request and the consumption of its reply. -/
 theorem broken_variant_not_atomic :
